@@ -1,7 +1,578 @@
-// Package frontclient is one of the three fronts of check C09 (see ../main.go).
+// Package frontclient is front (c) of check C09 (see ../main.go): a hostile / faulty remote provider answers the library's
+// client-side helpers.
+//
+// One case = one helper (target) called against a fresh fake provider (internal/fakeop) with its own *http.Client. Every
+// endpoint answers validly, except that the endpoint under test gives the one generated answer of the case
+// (status x body class x Content-Type x headers x transport fault). The oracle is structural and comes from the statement:
+// the helper returns (a value or an error) — it does not panic (attributed by stack), an RP callback handler does not
+// answer twice, and it does not hang (watchdog: inconclusive, never a violation). Fully valid answers must make every
+// helper succeed at least once (mandatory scenarios), so that the hostile cases are known to reach the decoding code.
 package frontclient
 
-import "verif/internal/ev"
+import (
+	"context"
+	"encoding/json"
+	"errors"
+	"fmt"
+	"math/rand/v2"
+	"net/http"
+	"net/http/httptest"
+	"net/url"
+	"os"
+	"path/filepath"
+	"regexp"
+	"sort"
+	"strings"
+	"sync"
+	"time"
 
-// Run executes the front and records into run. prefix is the violation-key prefix ("C09:client:").
-func Run(run *ev.Run) {}
+	"golang.org/x/oauth2"
+
+	"github.com/zitadel/oidc/v3/pkg/client"
+	"github.com/zitadel/oidc/v3/pkg/client/rp"
+	"github.com/zitadel/oidc/v3/pkg/oidc"
+
+	"verif/internal/ev"
+	"verif/internal/fakeop"
+	"verif/internal/mon"
+)
+
+const (
+	prefix   = "C09:client:"
+	stream   = 300
+	front    = "client"
+	callWait = 60 * time.Second  // context of every helper call
+	watchdog = 150 * time.Second // a call that has not returned by then is inconclusive
+)
+
+type env struct {
+	run      *ev.Run
+	targets  []target
+	keyFile  string
+	thorough bool
+	verbose  bool
+	inflight *inflightLog
+}
+
+// Run executes the front and records into run.
+func Run(run *ev.Run) {
+	e := &env{run: run, targets: targets(), thorough: run.Tier == ev.Thorough}
+	run.Assume("client front: every helper call has its own fake provider, its own *http.Client and a context with a 60 s deadline; a call that has not returned after 150 s is inconclusive",
+		"client front: (nil value, nil error) results are grey (counted as ok-nil): the statement only demands termination without panic")
+
+	// replay of a single case of another front: nothing to do here
+	var rw struct {
+		Front    string `json:"front"`
+		Inflight []int  `json:"inflight_cases"`
+	}
+	if raw := run.ReplayWitness(); raw != nil {
+		_ = json.Unmarshal(raw, &rw)
+		if rw.Front != "" && rw.Front != front {
+			return
+		}
+	}
+
+	if !e.selfCheck() {
+		return
+	}
+	dir, err := os.MkdirTemp("", "c09client-")
+	if err != nil {
+		run.HarnessBug("client front: cannot create temp dir: " + err.Error())
+		return
+	}
+	defer os.RemoveAll(dir)
+	e.keyFile = filepath.Join(dir, "key.json")
+	if err := os.WriteFile(e.keyFile, keyFileJSON(), 0o600); err != nil {
+		run.HarnessBug("client front: cannot write key file: " + err.Error())
+		return
+	}
+	// warm the key pool and the token cache outside the parallel section
+	for _, iss := range issuers {
+		validIDToken(iss)
+	}
+	validJWKS()
+	e.probes()
+
+	var names []string
+	for _, t := range e.targets {
+		names = append(names, "client:success:"+t.name)
+	}
+	if rc := run.ReplayCase(); rc >= 0 {
+		e.verbose = true
+		e.runCase(0, int(rc))
+		return
+	}
+	if len(rw.Inflight) > 0 {
+		e.verbose = true
+		for _, i := range rw.Inflight {
+			e.runCase(0, i)
+		}
+		return
+	}
+	run.Mandatory(names...)
+	n := run.N(6000, 150000)
+	e.inflight = newInflightLog(run)
+	ev.Parallel(n, 0, func(worker, i int) { e.runCase(worker, i) })
+	e.inflight.done()
+	run.Extra("client_front", map[string]any{
+		"cases": n, "targets": len(e.targets), "body_classes": len(bodyClasses),
+		"rule": "a case is non-trivial when the provider actually served the answer under test to the helper; distinct = (target, endpoint, status, body class, content-type class, transport, outcome class)",
+	})
+}
+
+// selfCheck verifies that the valid documents carry every documented member of the library's response types.
+func (e *env) selfCheck() bool {
+	p := fakeop.New(issuers[0])
+	checks := []struct {
+		name string
+		d    doc
+		typ  any
+	}{
+		{"discovery", discoveryDoc(p), oidc.DiscoveryConfiguration{}},
+		{"token", tokenDoc(issuers[0]), oidc.AccessTokenResponse{}},
+		{"token-exchange", tokenExchangeDoc(issuers[0]), oidc.TokenExchangeResponse{}},
+		{"userinfo", userinfoDoc(), oidc.UserInfo{}},
+		{"introspection", introspectionDoc(issuers[0]), oidc.IntrospectionResponse{}},
+		{"device", deviceDoc(issuers[0]), oidc.DeviceAuthorizationResponse{}},
+		{"error", errorDoc(), oidc.Error{}},
+	}
+	ok := true
+	for _, c := range checks {
+		if miss := missingMembers(c.d, c.typ); len(miss) > 0 {
+			e.run.HarnessBug(fmt.Sprintf("client front: valid %s document lacks documented members %v", c.name, miss))
+			ok = false
+		}
+	}
+	return ok
+}
+
+func ctypeClass(ct string) string {
+	switch {
+	case ct == "":
+		return "absent"
+	case len(ct) > 100:
+		return "huge"
+	case strings.HasPrefix(strings.ToLower(ct), "application/json"):
+		if strings.Contains(ct, "16") {
+			return "json-utf16-lie"
+		}
+		return "json"
+	case strings.HasPrefix(ct, "text/"):
+		return "text"
+	case strings.Contains(ct, "form"):
+		return "form"
+	case strings.Contains(ct, "jwt"):
+		return "jwt"
+	}
+	return "malformed"
+}
+
+func (e *env) runCase(worker, idx int) {
+	run := e.run
+	r := run.CaseRand(stream, idx)
+	nT := len(e.targets)
+	tg := e.targets[idx%nT]
+	classIdx := idx / nT
+	endpoint := tg.endpoints[r.IntN(len(tg.endpoints))]
+	issuer := issuers[r.IntN(len(issuers))]
+	w := e.newWorld(issuer, r, tg.tokenExchange)
+	p := w.p
+	if endpoint == fakeop.Token && verifiesIDToken[tg.name] && classIdx%len(bodyClasses) != 0 && r.IntN(4) == 0 {
+		classIdx = specialClass // the helpers that verify the returned id_token see more hostile id_tokens
+	}
+	a := hostile(w, endpoint, classIdx, r, e.thorough)
+	resp := a.response()
+	var gate *fakeop.Gate
+	if a.Transport == "held-cancel" {
+		gate = fakeop.NewGate()
+		resp.Gate = gate
+	} else {
+		w.noCtx = r.IntN(3) == 0
+	}
+	polling := strings.Contains(tg.name, "DeviceAccessToken") && !strings.Contains(tg.name, "CallDeviceAccessToken")
+	pendingPrefix := 0
+	if polling && r.IntN(4) == 0 {
+		pendingPrefix = 1 + r.IntN(2)
+		for i := 0; i < pendingPrefix; i++ {
+			p.Script(endpoint, fakeop.JSON(400, `{"error":"authorization_pending"}`))
+		}
+		w.v("pending-prefix=%d", pendingPrefix)
+	}
+	if a.Sticky {
+		if pendingPrefix > 0 {
+			p.Script(endpoint, resp)
+		}
+		p.Default(endpoint, resp)
+	} else {
+		p.Script(endpoint, resp)
+	}
+	wait := callWait
+	if polling {
+		wait = 5 * time.Second // slow_down makes the helper sleep 5 s per round; the context ends the polling instead
+	}
+	ctx, cancel := context.WithTimeout(context.Background(), wait)
+	defer cancel()
+	w.ctx = ctx
+
+	if e.inflight != nil {
+		e.inflight.set(worker, idx)
+	}
+	run.Eval()
+
+	// ---- drive ----
+	var out result
+	done := make(chan *mon.PanicInfo, 1)
+	go func() {
+		done <- mon.Catch(func() { out = tg.run(w, endpoint) })
+	}()
+	if gate != nil {
+		go func() {
+			select {
+			case <-gate.Arrived():
+				cancel()
+			case <-ctx.Done():
+			}
+		}()
+	}
+	var pi *mon.PanicInfo
+	timer := time.NewTimer(watchdog)
+	select {
+	case pi = <-done:
+		timer.Stop()
+	case <-timer.C:
+		if gate != nil {
+			gate.Release()
+		}
+		run.Inconclusive("watchdog:" + tg.name)
+		run.SampleKind("watchdog", e.witness(idx, tg, w, endpoint, a, out, nil))
+		return
+	}
+	if gate != nil {
+		gate.Release()
+	}
+
+	// ---- observe ----
+	served := 0
+	log := p.Log()
+	for _, q := range log {
+		run.Count("client_requests_by_endpoint", q.Endpoint)
+		if q.Endpoint == endpoint && q.Note == a.Class {
+			served++
+		}
+	}
+	run.CountN("client_provider_answers_under_test_served", endpoint, int64(served))
+	for _, f := range w.followups {
+		run.Count("client_followups", f)
+	}
+
+	// ---- judge ----
+	if pi != nil {
+		wit := e.witness(idx, tg, w, endpoint, a, out, pi)
+		switch {
+		case pi.InRepo:
+			run.Count("client_outcome", tg.name+"|PANIC")
+			run.Violation(prefix+"panic:"+panicSite(pi), int64(idx),
+				fmt.Sprintf("%s panicked (%s) at %s when the %s endpoint answered %d with body class %q (%s)", tg.name, pi.Value, pi.Frame, endpoint, a.Status, a.Class, a.Detail), wit)
+		default:
+			run.HarnessBug(fmt.Sprintf("client front case %d (%s): panic outside the library: %s at %s\n%s", idx, tg.name, pi.Value, pi.Frame, firstLines(pi.Stack, 25)))
+		}
+		if e.verbose {
+			fmt.Printf("case %d: PANIC %s at %s\n%s\n", idx, pi.Value, pi.Frame, firstLines(pi.Stack, 40))
+		}
+		return
+	}
+	if h := w.handler; h != nil {
+		run.Count("client_handler_status", fmt.Sprint(h.Status))
+		if h.WriteHeaderCalls > 1 || h.Callbacks > 1 || (h.Callbacks > 0 && h.Status != 200) {
+			run.Violation(prefix+"double-response:"+tg.name, int64(idx),
+				fmt.Sprintf("%s answered twice: %d WriteHeader calls (first %d, then %v), %d callback invocations", tg.name, h.WriteHeaderCalls, h.Status, h.Superfluous, h.Callbacks),
+				e.witness(idx, tg, w, endpoint, a, out, nil))
+			return
+		}
+	}
+	if out.prereqErr != nil {
+		// a prerequisite that was answered validly failed: nothing is learnt about the helper under test
+		run.Count("client_prerequisite_failed", tg.name+"|"+errClass(out.prereqErr))
+		if e.verbose {
+			fmt.Printf("case %d: prerequisite failed: %v\n", idx, short(out.prereqErr.Error()))
+		}
+		return
+	}
+	outcome := "ok"
+	switch {
+	case out.err != nil:
+		outcome = "error"
+	case out.nilValue:
+		outcome = "ok-nil"
+	}
+	ec := errClass(out.err)
+	run.Count("client_outcome", tg.name+"|"+outcome)
+	run.Count("client_error_class", ec)
+	run.Count("client_answers_by_class", a.Class)
+	run.Count("client_answers_by_status", fmt.Sprint(a.Status))
+	run.Count("client_answers_by_endpoint", endpoint)
+	run.Count("client_answers_by_transport", a.Transport)
+	run.Count("client_answers_by_content_type", ctypeClass(a.CType))
+	if outcome == "ok-nil" {
+		run.Count("client_grey_nil_value_nil_error", tg.name+"|"+a.Class)
+		run.SampleKind("client-grey-nil-value-nil-error", e.witness(idx, tg, w, endpoint, a, out, nil))
+	}
+	if served == 0 {
+		run.Count("client_trivial_answer_never_requested", tg.name)
+		return
+	}
+	run.Distinct(strings.Join([]string{front, tg.name, endpoint, fmt.Sprint(a.Status), a.Class, ctypeClass(a.CType), a.Transport, outcome + "/" + ec}, "|"))
+	if a.valid() {
+		if outcome == "ok" {
+			run.Observed("client:success:" + tg.name)
+			run.SampleKind("client-valid-answer", e.witness(idx, tg, w, endpoint, a, out, nil))
+		} else {
+			run.Count("client_valid_answer_not_accepted", tg.name+"|"+outcome+"|"+ec)
+		}
+	} else if a.Class == "valid-extra" {
+		if outcome != "ok" {
+			run.Count("client_decorated_valid_answer_not_accepted", tg.name+"|"+ec)
+		}
+	} else {
+		if outcome == "error" {
+			run.SampleKind("client-hostile-"+a.Class, e.witness(idx, tg, w, endpoint, a, out, nil))
+		} else {
+			run.Count("client_hostile_answer_accepted", a.Class+"|"+fmt.Sprint(a.Status))
+		}
+	}
+	if e.verbose {
+		b, _ := json.MarshalIndent(e.witness(idx, tg, w, endpoint, a, out, nil), "", " ")
+		fmt.Printf("case %d: outcome=%s error_class=%s\n%s\n", idx, outcome, ec, b)
+	}
+}
+
+func firstLines(s string, n int) string {
+	lines := strings.Split(s, "\n")
+	if len(lines) > n {
+		lines = lines[:n]
+	}
+	return strings.Join(lines, "\n")
+}
+
+func (e *env) witness(idx int, tg target, w *world, endpoint string, a *answer, out result, pi *mon.PanicInfo) map[string]any {
+	var reqs []map[string]any
+	for i, q := range w.p.Log() {
+		if i >= 12 {
+			reqs = append(reqs, map[string]any{"more": len(w.p.Log()) - i})
+			break
+		}
+		m := map[string]any{"seq": q.Seq, "done_seq": q.DoneSeq, "endpoint": q.Endpoint, "method": q.Method, "url": short(q.URL), "status": q.Status, "note": q.Note}
+		if len(q.Body) > 0 {
+			m["body"] = short(string(q.Body))
+		}
+		if q.Err != "" {
+			m["transport_error"] = q.Err
+		}
+		reqs = append(reqs, m)
+	}
+	m := map[string]any{
+		"front": front, "case": idx, "target": tg.name, "variant": strings.Join(w.variant, ","), "issuer": w.issuer,
+		"endpoint_under_test": endpoint, "provider_answer": a.literal(), "requests": reqs,
+		"replay": fmt.Sprintf("VERIF_SEED=%d ./check <C09|c09client> %s --replay <this file>", e.run.Seed, e.run.Tier),
+	}
+	if out.err != nil {
+		m["returned_error"] = short(out.err.Error())
+	} else if pi == nil {
+		m["returned_value"] = out.value
+	}
+	if w.handler != nil {
+		m["handler"] = w.handler
+	}
+	if len(w.followups) > 0 {
+		m["followups"] = w.followups
+	}
+	if pi != nil {
+		m["panic"] = pi.Value
+		m["panic_frame"] = pi.Frame
+		m["stack"] = strings.Split(firstLines(pi.Stack, 40), "\n")
+	}
+	return m
+}
+
+// ---------- error classes (for the histograms only; never part of a verdict) ----------
+
+var nonWord = regexp.MustCompile(`[^A-Za-z]+`)
+
+func errClass(err error) string {
+	if err == nil {
+		return "ok"
+	}
+	var oe *oidc.Error
+	if errors.As(err, &oe) {
+		t := string(oe.ErrorType)
+		if len(t) > 30 || nonWord.MatchString(strings.ReplaceAll(t, "_", "")) {
+			t = "other"
+		}
+		return "oidc.Error:" + t
+	}
+	var re *oauth2.RetrieveError
+	if errors.As(err, &re) {
+		return "oauth2.RetrieveError"
+	}
+	for _, k := range []struct {
+		e error
+		n string
+	}{
+		{context.Canceled, "context.Canceled"}, {context.DeadlineExceeded, "context.DeadlineExceeded"},
+		{oidc.ErrIssuerInvalid, "oidc.ErrIssuerInvalid"}, {oidc.ErrSubjectMissing, "oidc.ErrSubjectMissing"}, {oidc.ErrAudience, "oidc.ErrAudience"},
+		{oidc.ErrParse, "oidc.ErrParse"}, {oidc.ErrSignatureMissing, "oidc.ErrSignatureMissing"}, {oidc.ErrSignatureMultiple, "oidc.ErrSignatureMultiple"},
+		{oidc.ErrSignatureUnsupportedAlg, "oidc.ErrSignatureUnsupportedAlg"}, {oidc.ErrSignatureInvalidPayload, "oidc.ErrSignatureInvalidPayload"},
+		{oidc.ErrSignatureInvalid, "oidc.ErrSignatureInvalid"}, {oidc.ErrExpired, "oidc.ErrExpired"}, {oidc.ErrIatInFuture, "oidc.ErrIatInFuture"},
+		{oidc.ErrAzpMissing, "oidc.ErrAzpMissing"}, {oidc.ErrAzpInvalid, "oidc.ErrAzpInvalid"}, {oidc.ErrAtHash, "oidc.ErrAtHash"},
+		{oidc.ErrKeyNone, "oidc.ErrKeyNone"}, {oidc.ErrKeyMultiple, "oidc.ErrKeyMultiple"},
+		{rp.ErrUserInfoSubNotMatching, "rp.ErrUserInfoSubNotMatching"}, {rp.ErrMissingIDToken, "rp.ErrMissingIDToken"},
+		{rp.ErrRelyingPartyNotSupportRevokeCaller, "rp.ErrRelyingPartyNotSupportRevokeCaller"}, {client.ErrEndpointNotSet, "client.ErrEndpointNotSet"},
+		{fakeop.ErrAborted, "transport-aborted"},
+	} {
+		if errors.Is(err, k.e) {
+			if errors.Is(err, oidc.ErrDiscoveryFailed) {
+				return "discovery-failed/" + k.n
+			}
+			return k.n
+		}
+	}
+	msg := err.Error()
+	if len(msg) > 300 {
+		msg = msg[:300]
+	}
+	pre := ""
+	if errors.Is(err, oidc.ErrDiscoveryFailed) {
+		pre = "discovery-failed/"
+	}
+	for _, k := range []struct{ sub, n string }{
+		{"failed to unmarshal response", "unmarshal"}, {"http status not ok", "http-status"}, {"unable to read response body", "read-body"},
+		{"unexpected EOF", "unexpected-EOF"}, {"server response missing access_token", "oauth2:missing-access_token"}, {"oauth2: cannot fetch token", "oauth2:cannot-fetch"},
+		{"oauth2: cannot parse json", "oauth2:json"}, {"EndSession failure", "end-session-status"}, {"revoke returned status", "revoke-status"},
+		{"stopped after 10 redirects", "redirect-loop"}, {"unsupported protocol scheme", "unsupported-scheme"}, {"failed to parse Location", "bad-location"},
+		{"unable to fetch key", "keyset:fetch"}, {"unable to validate signature", "keyset:no-matching-key"}, {"signature verification failed", "keyset:bad-signature"},
+		{"handler answered", "handler-error-response"}, {"tokenURL is empty", "empty-token-url"}, {"introspection URL is empty", "empty-introspection-url"},
+		{"invalid character", "json-syntax"}, {"cannot unmarshal", "json-type"}, {"unexpected end of JSON", "json-truncated"}, {"invalid URL escape", "url-escape"},
+		{"missing protocol scheme", "url-no-scheme"}, {"invalid control character", "url-control-char"}, {"no Host in request URL", "url-no-host"},
+		{"exceeded max depth", "json-depth"}, {"mime:", "mime"},
+	} {
+		if strings.Contains(msg, k.sub) {
+			return pre + k.n
+		}
+	}
+	var ue *url.Error
+	if errors.As(err, &ue) {
+		return pre + "url.Error"
+	}
+	s := nonWord.ReplaceAllString(msg, "_")
+	if len(s) > 28 {
+		s = s[:28]
+	}
+	return pre + "other:" + s
+}
+
+// ---------- in-flight case log (a process-fatal fault in a library goroutine still leaves a replayable record) ----------
+
+type inflightLog struct {
+	mu    sync.Mutex
+	run   *ev.Run
+	path  string
+	cases map[int]int
+}
+
+func newInflightLog(run *ev.Run) *inflightLog {
+	return &inflightLog{run: run, path: filepath.Join(ev.Out, "replay", run.ID+".inflight.json"), cases: map[int]int{}}
+}
+
+func (l *inflightLog) set(worker, idx int) {
+	l.mu.Lock()
+	defer l.mu.Unlock()
+	l.cases[worker] = idx
+	var cs []int
+	for _, c := range l.cases {
+		cs = append(cs, c)
+	}
+	sort.Ints(cs)
+	b, _ := json.Marshal(map[string]any{"property": l.run.ID, "key": prefix + "process-fatal", "seed": l.run.Seed, "tier": l.run.Tier, "case": -1,
+		"what":    "cases of the client front that were executing when the process died",
+		"witness": map[string]any{"front": front, "inflight_cases": cs}})
+	_ = os.MkdirAll(filepath.Dir(l.path), 0o755)
+	_ = os.WriteFile(l.path, b, 0o644)
+}
+
+func (l *inflightLog) done() {
+	l.mu.Lock()
+	defer l.mu.Unlock()
+	_ = os.Remove(l.path)
+}
+
+// helpers that pass the id_token of a token response on to the ID-token verifier
+var verifiesIDToken = map[string]bool{"rp.CodeExchange": true, "rp.CodeExchangeHandler": true, "rp.RefreshTokens": true, "rp.UserinfoCallback": true}
+
+var specialClass = func() int {
+	for i, c := range bodyClasses {
+		if c == "special" {
+			return i
+		}
+	}
+	panic("no special class")
+}()
+
+var genericName = regexp.MustCompile(`([A-Za-z0-9_]+)\[\.\.\.\]`)
+
+// panicSite is the canonical signature of a panic in library code. A closure of a generic library function is named after the
+// package that instantiated it (here: the harness), so for those the library file and the generic function's name are used.
+func panicSite(pi *mon.PanicInfo) string {
+	site := pi.Site()
+	if strings.HasPrefix(site, "github.com/zitadel/oidc/") {
+		return site
+	}
+	file := pi.Frame
+	if i := strings.Index(file, " "); i >= 0 {
+		file = file[:i]
+	}
+	if i := strings.LastIndex(file, ":"); i >= 0 {
+		file = file[:i]
+	}
+	file = strings.TrimPrefix(file, mon.RepoPrefix)
+	if m := genericName.FindAllStringSubmatch(site, -1); len(m) > 0 {
+		return file + ":" + m[len(m)-1][1] + "[...]"
+	}
+	return file
+}
+
+// newWorld builds a provider whose every endpoint answers validly, with its own http.Client.
+func (e *env) newWorld(issuer string, r *rand.Rand, tokenExchange bool) *world {
+	p := fakeop.New(issuer)
+	w := &world{issuer: issuer, p: p, hc: p.Client(), r: r, tokenExchange: tokenExchange, keyFile: e.keyFile}
+	for _, ep := range []string{fakeop.Discovery, fakeop.Token, fakeop.Userinfo, fakeop.Introspection, fakeop.JWKS, fakeop.DeviceAuthorization, fakeop.Revocation, fakeop.EndSession} {
+		p.Default(ep, validAnswer(w, ep).response())
+	}
+	return w
+}
+
+// probes are single observations that are reported but never judged (grey): they concern API misuse rather than a provider answer.
+func (e *env) probes() {
+	// rp.UserinfoCallback on an OAuth2-only relying party: Tokens.IDTokenClaims is nil for every successful token response
+	w := e.newWorld(issuers[0], e.run.CaseRand(stream+1, 0), false)
+	ctx, cancel := context.WithTimeout(context.Background(), callWait)
+	defer cancel()
+	w.ctx = ctx
+	pi := mon.Catch(func() {
+		party, err := w.newOAuthRP()
+		if err != nil {
+			return
+		}
+		cb := func(rw http.ResponseWriter, r *http.Request, tokens *oidc.Tokens[*oidc.IDTokenClaims], state string, party rp.RelyingParty, info *oidc.UserInfo) {
+		}
+		req := httptest.NewRequest("GET", "https://rp.example/callback?code=code-1&state=s", nil).WithContext(ctx)
+		rp.CodeExchangeHandler(rp.UserinfoCallback(cb), party)(mon.NewRecorder(), req)
+	})
+	switch {
+	case pi == nil:
+		e.run.Count("client_grey_probes", "UserinfoCallback on an OAuth2-only relying party (valid token answer): no panic")
+	case pi.InRepo:
+		e.run.Count("client_grey_probes", "UserinfoCallback on an OAuth2-only relying party (valid token answer): panics at "+panicSite(pi)+" (API misuse, not judged)")
+	default:
+		e.run.HarnessBug("client front probe: " + pi.Value + " at " + pi.Frame)
+	}
+}
